@@ -333,6 +333,44 @@ pub fn run(tier: Tier) -> i32 {
             }
         }
     }
+    // long streams (more than two reader batches of 100 packets): header corruption on link A right before / at /
+    // after a batch boundary of the merged file must not change what is reported for link B
+    {
+        let mut ca = LinkCfg::ib(0, 3);
+        ca.bc_step = 0x10;
+        let mut cb = LinkCfg::ol(1, 3, false);
+        cb.data_format = 0;
+        cb.bc_step = 0x10;
+        let one = |c: &LinkCfg| grammar::basic_hbf_shapes(c)[0].1.clone();
+        let a_clean = grammar::render_link(&ca, &vec![one(&ca); 53]);
+        let mut b_err = grammar::render_link(&cb, &vec![one(&cb); 53]);
+        {
+            let last = b_err.len() - 1;
+            b_err[last].packet.rdh.pages_counter += 3;
+            let p = &mut b_err[60];
+            if let Some(wi) = p.words.iter().position(|w| w.kind == grammar::WKind::Tdt) {
+                let off = p.word_rel_offset(wi) - 64;
+                p.packet.payload[off + 7] |= 0x01;
+            }
+        }
+        let order: Vec<usize> = (0..a_clean.len() + b_err.len()).map(|i| i % 2).collect();
+        let kinds: Vec<(&str, Box<dyn Fn(&mut fp_model::rdh::Rdh)>)> = vec![
+            ("system id 0", Box::new(|r| r.system_id = 0)),
+            ("system id 0xFF", Box::new(|r| r.system_id = 0xFF)),
+            ("header version 6", Box::new(|r| r.header_id = 6)),
+            ("orbit jump", Box::new(|r| r.orbit = r.orbit.wrapping_add(0x1000))),
+            ("trigger type 0", Box::new(|r| r.trigger_type = 0)),
+            ("data format 0xFF", Box::new(|r| r.data_format = 0xFF)),
+        ];
+        for (kname, k) in &kinds {
+            for ai in [49usize, 50, 51, 100] {
+                let mut a = a_clean.clone();
+                k(&mut a[ai].packet.rdh);
+                let seqs = vec![Seq { name: format!("linkA-{kname}-at-file-packet-{}", 2 * ai), packets: a }, Seq { name: "linkB-tdt-reserved+page-counter".into(), packets: b_err.clone() }];
+                cases.push(Case { seqs, order: order.clone(), mode: Mode::AllIts, cli: true });
+            }
+        }
+    }
     let res = par_map(&cases, |_, c| run_case(c));
     let mut with_errors = 0u64;
     for (c, r) in cases.iter().zip(res.iter()) {
@@ -353,7 +391,7 @@ pub fn run(tier: Tier) -> i32 {
     rep.cov("cli_cases", json!(cases.iter().filter(|c| c.cli).count()));
     rep.cov("shapes", json!(shapes));
     rep.cov("exhaustive", json!(true));
-    rep.cov("rule", json!("every order-preserving merge of per-link sequences for the listed shapes x {all clean, all corrupted (2 variants), one corrupted link at a time} x {check all its, check all, check all its-stave (frames)}; legs: in-process scanner+validators (full run, --filter-link/-fee/-its-stave for every link), CLI full run / extracted file / --filter-link (every 5th merge in quick, all in thorough), reference = one synchronous LinkValidator pass. non-trivial = at least one link carries errors"));
+    rep.cov("rule", json!("every order-preserving merge of per-link sequences for the listed shapes x {all clean, all corrupted (2 variants), one corrupted link at a time} x {check all its, check all, check all its-stave (frames)}; legs: in-process scanner+validators (full run, --filter-link/-fee/-its-stave for every link), CLI full run / extracted file / --filter-link (every 5th merge in quick, all in thorough), reference = one synchronous LinkValidator pass; two links x 106 packets round robin (3 reader batches) with 6 kinds of header corruption (none that changes which filter selects the packet) on one link at merged-file packets 98/100/102/200 and errors on the other. non-trivial = at least one link carries errors"));
     rep.sample(json!({"shape": [3, 3], "merge": [0, 1, 1, 0, 0, 1], "sequences": ["link0-tdt-reserved+page-counter", "link1-clean"]}));
     rep.assume("excluded, as by the property's reading in DESIGN.md: streams with a fatal framing error or unknown system id; sequences whose first packet has an RDH0 fault (extraction / filter legs)");
     rep.finish()
